@@ -11,7 +11,15 @@ import (
 	"github.com/openfga/language/pkg/go/zzverif"
 )
 
-const verifFileAlphabet = "a-b./_" // module and file names
+const verifFileAlphabetDefault = "a-b./_" // module and file names
+
+// verifFileAlpha: NL=1 adds the line feed and the carriage return (a name that would end the comment it is printed in)
+func verifFileAlpha() string {
+	if zzverif.Param("NL", 0) == 1 {
+		return "a\n\r"
+	}
+	return verifFileAlphabetDefault
+}
 
 func verifSrc(module, file string) *openfgav1.SourceInfo {
 	if file == "" {
@@ -24,8 +32,8 @@ func verifSrc(module, file string) *openfgav1.SourceInfo {
 // one type with two relations (one of them contributed by another module), two
 // conditions.
 func verifModularModel(n int) *openfgav1.AuthorizationModel {
-	mods := []string{zzverif.Str("mod0", 1, n, verifFileAlphabet), zzverif.Str("mod1", 1, n, verifFileAlphabet)}
-	files := []string{zzverif.Str("file0", 0, n, verifFileAlphabet), zzverif.Str("file1", 0, n, verifFileAlphabet)}
+	mods := []string{zzverif.Str("mod0", 1, n, verifFileAlpha()), zzverif.Str("mod1", 1, n, verifFileAlpha())}
+	files := []string{zzverif.Str("file0", 0, n, verifFileAlpha()), zzverif.Str("file1", 0, n, verifFileAlpha())}
 	tnames := []string{zzverif.Str("t0", 1, n, verifNameAlphabet), zzverif.Str("t1", 1, n, verifNameAlphabet)}
 	zzverif.Assume(tnames[0] != tnames[1])
 	r0, r1 := zzverif.Str("r0", 1, n, verifNameAlphabet), zzverif.Str("r1", 1, n, verifNameAlphabet)
@@ -116,8 +124,8 @@ func VerifC14_TypeOrder() {
 		names = append(names, name)
 		td := &openfgav1.TypeDefinition{Type: name}
 		if zzverif.Choose("attributed", 2) == 1 {
-			mod := zzverif.Str("module", 1, n, verifFileAlphabet)
-			td.Metadata = &openfgav1.Metadata{Module: mod, SourceInfo: verifSrc(mod, zzverif.Str("file", 0, n, verifFileAlphabet))}
+			mod := zzverif.Str("module", 1, n, verifFileAlpha())
+			td.Metadata = &openfgav1.Metadata{Module: mod, SourceInfo: verifSrc(mod, zzverif.Str("file", 0, n, verifFileAlpha()))}
 			anyModule = true
 		}
 		tds = append(tds, td)
@@ -224,7 +232,7 @@ func VerifC14_CondOrder() {
 		}
 		cd := &openfgav1.Condition{Name: c.name, Expression: "true", Parameters: map[string]*openfgav1.ConditionParamTypeRef{"x": {TypeName: openfgav1.ConditionParamTypeRef_TYPE_NAME_INT}}}
 		if zzverif.Choose("attributed", 2) == 1 {
-			c.module, c.file = zzverif.Str("module", 1, n, verifFileAlphabet), zzverif.Str("file", 0, n, verifFileAlphabet)
+			c.module, c.file = zzverif.Str("module", 1, n, verifFileAlpha()), zzverif.Str("file", 0, n, verifFileAlpha())
 			cd.Metadata = &openfgav1.ConditionMetadata{Module: c.module, SourceInfo: verifSrc(c.module, c.file)}
 			anyModule = true
 		}
